@@ -120,6 +120,18 @@ async fn replay_create_certificate_links_to_master_of_signing_epoch() {
     assert_eq!(second.epoch, Epoch(3));
     assert_eq!(second.previous_hash, first.hash,
                "the second certificate of epoch 3 (Cardano stake distribution of epoch 2) links to {} instead of the first certificate of its own epoch", second.previous_hash);
+    // a THIRD certificate of the epoch still links to the FIRST one (not to the most recent one)
+    let third_type = SignedEntityType::MithrilStakeDistribution(Epoch(3));
+    let mut third_message = ProtocolMessage::new();
+    third_message.set_message_part(ProtocolMessagePartKey::CurrentEpoch, "3".to_string());
+    third_message.set_message_part(ProtocolMessagePartKey::NextAggregateVerificationKey, "next-avk".to_string());
+    s.service.create_open_message(&third_type, &third_message).await.unwrap();
+    for signature in s.fixture.sign_all(&third_message) {
+        s.service.register_single_signature(&third_type, &signature).await.unwrap();
+    }
+    let third = s.service.create_certificate(&third_type).await.unwrap().expect("third certificate of epoch 3 not created");
+    assert_eq!(third.previous_hash, first.hash,
+               "the third certificate of epoch 3 links to {} (the most recent certificate is {}) instead of the FIRST certificate of its epoch {}", third.previous_hash, second.hash, first.hash);
 }
 
 /// a certificate the verifier REJECTS is never stored (verification comes before storage)
